@@ -266,7 +266,25 @@ def compare(node: ast.Compare, env: Env) -> Term:
             ne = nonempty(a_node.args[0], env)
             parts.append(ne if sym in ("is not", "!=") else neg(ne))
             continue
+        # ``next(X, SENTINEL) is not SENTINEL``  ==  X yields something (identity with a module-level sentinel object)
+        if sym in ("is not", "is") and isinstance(b_node, ast.Name) and isinstance(a_node, ast.Call) and _is_name(a_node.func, "next") and len(a_node.args) == 2 \
+                and isinstance(a_node.args[1], ast.Name) and a_node.args[1].id == b_node.id and b_node.id not in env.names and b_node.id.lstrip("_").isupper():
+            src = a_node.args[0]
+            if isinstance(src, ast.Call) and _is_name(src.func, "iter") and len(src.args) == 1:
+                src = src.args[0]
+            ne = nonempty(src, env)
+            parts.append(ne if sym == "is not" else neg(ne))
+            continue
         a, b = T(a_node, env), T(b_node, env)
+        # the same idiom with the next(...) bound to a local first
+        if sym in ("is not", "is") and isinstance(b_node, ast.Name) and b_node.id not in env.names and b_node.id.lstrip("_").isupper() \
+                and isinstance(a, tuple) and a and a[0] == "call" and a[1] is None and a[2] == "next" and len(a[3]) == 2 and a[3][1] == b:
+            x_t = a[3][0]
+            if isinstance(x_t, tuple) and x_t and x_t[0] == "iter":
+                x_t = x_t[1]
+            ne = ("exists", ("iter", x_t), TRUE)
+            parts.append(ne if sym == "is not" else neg(ne))
+            continue
         if sym == ">":
             sym, a, b = "<", b, a
         elif sym == ">=":
@@ -319,6 +337,13 @@ def call(node: ast.Call, env: Env) -> Term:
             items = [T(e, env) for e in args[0].elts]
             return mk_and(items) if name == "all" else mk_or(items)
         if name in ("all", "any") and len(args) == 1:
+            t0 = T(args[0], env)
+            if isinstance(t0, tuple) and t0 and t0[0] == "comp" and not (isinstance(t0[4], tuple) and t0[4] and t0[4][0] == "comp"):
+                # all(map(f, xs)) / all(<a generator bound earlier>): quantify over the underlying domain
+                _c, _kind, dom0, conds0, body0 = t0
+                if name == "all":
+                    return ("forall", dom0, mk_or([neg(conds0), body0]) if conds0 != TRUE else body0)
+                return ("exists", dom0, mk_and([conds0, body0]) if conds0 != TRUE else body0)
             inner = env.child()
             dom = ("iter", T(args[0], env))
             body = ("bv", inner.depth, 0)
